@@ -67,6 +67,112 @@ def has_assoc(path_t):
     return args[1] == "PathArguments::AngleBracketed" and any(a[1] == "GenericArgument::AssocType" for a in args[3][1][3])
 
 
+def _strip_bindings(path_t):
+    """independent reading of "the user's bound with exactly the bindings removed"; `Tr<>` and `Tr` identified"""
+    _, k, atoms, kids = path_t
+    lead, segs = kids[0], kids[1][3]
+    out = []
+    for i, sg in enumerate(segs):
+        ident, args = sg[3]
+        if args[1] == "PathArguments::AngleBracketed":
+            keep = [a for a in args[3][1][3] if a[1] not in ("GenericArgument::AssocType", "GenericArgument::AssocConst", "GenericArgument::Constraint")]
+            args = tref.N("PathArguments::AngleBracketed", [], [tref.N("Ign"), tref.N("List", [], keep)]) if keep else tref.N("PathArguments::None")
+        out.append(tref.N("PathSegment", [], [ident, args]))
+    return tref.N("Path", [], [lead, tref.N("List", [], out)])
+
+
+def _all_paths(t, acc):
+    """every trait-bound path and every projection `<X as Path>::..` in a tree"""
+    if t[0] != "N":
+        return
+    if t[1] == "TraitBound" and len(t[3]) == 4:
+        acc.append(("bound", t[3][3]))
+    if t[1] in ("Type::Path", "Expr::Path") and t[3][-2][1] == "Some":
+        q = t[3][-2][3][0]
+        pos = int(q[3][1][2][0]) if q[3][1][2] else 0
+        path = t[3][-1]
+        segs = path[3][1][3]
+        if q[3][2][1] == "Some" and pos:
+            acc.append(("projection", tref.N("Path", [], [path[3][0], tref.N("List", [], segs[:pos])])))
+    for x in t[3]:
+        _all_paths(x, acc)
+
+
+def emission_stage(rep, exe, rng, n):
+    """end to end: the bound the REAL expansion carries in the main impl's where-clause and in every projection is the
+    user's bound with exactly the bindings removed — also for the second and later members of a family, whose bounds went
+    through reverse substitution (Path::substitute) before they became the family's keys"""
+    traits = ["::core::ops::Deref", "core::ops::Deref", "::core::iter::IntoIterator", "m::D0", "D0", "self::D0", "crate::m::D0", "::dep::sub::Tr",
+              "::core::ops::Add<u8>", "m::D2<'static, i32>", "::dep::Tr<u8, 2>"]
+    assocs = {"Deref": "Target", "IntoIterator": "Item", "Add<u8>": "Output"}
+    invs = []
+    for _ in range(n):
+        tr = rng.choice(traits)
+        last = tr.split("::")[-1]
+        assoc = assocs.get(last, "G")
+        base = last.split("<")[0]
+        targs = last[len(base) + 1:-1] if "<" in last else ""
+        prefix = tr[: len(tr) - len(last)]
+        nm = rng.choice([2, 2, 3])
+        shape = rng.choice(["T", "T", "Vec<T>", "(T, U)"])
+        blocks = []
+        for i in range(nm):
+            bind = f"{assoc} = G{i}"
+            args = ", ".join([a for a in [targs] if a] + [bind])
+            b = f"{prefix}{base}<{args}>"
+            hdr = shape if (i == 0 or rng.random() < 0.6 or shape != "T") else shape
+            gen = "T, U" if shape == "(T, U)" else "T"
+            # a later member with a nested header: its bound is re-expressed over the family's header
+            if i > 0 and shape == "T" and rng.random() < 0.35:
+                blocks.append(f"impl<V> Kita for Vec<V> where Vec<V>: {b} {{ const NAME: &'static str = \"b{i}\"; }}")
+                continue
+            if rng.random() < 0.5:
+                blocks.append(f"impl<{gen.replace('T', 'T: ' + b, 1)}> Kita for {hdr} {{ const NAME: &'static str = \"b{i}\"; }}")
+            else:
+                blocks.append(f"impl<{gen}> Kita for {hdr} where T: {b} {{ const NAME: &'static str = \"b{i}\"; }}")
+        invs.append((tr, "pub trait Kita { const NAME: &'static str; } " + " ".join(blocks), blocks))
+    from .shape import GenDump
+    res = C.run_hook(exe, [("gen", [inv]) for _, inv, _ in invs], tag="hooke")
+    dres = C.run_hook(exe, [("dump", ["path", tr]) for tr, _, _ in invs], tag="hooked")
+    for (tr, inv, blocks), (st, f), (dst, df) in zip(invs, res, dres):
+        if st != "ok" or dst != "ok":
+            rep.count("emission:hook-" + st)
+            continue
+        try:
+            d = GenDump(f)
+            want = _strip_bindings(decode(parse_dbg(df[0])))
+        except Exception:
+            rep.count("emission:undecodable")
+            continue
+        rep.case(("emission", inv), True)
+        rep.count("emission:invocations")
+        base = want[3][1][3][-1][3][0]
+        for fi, fam in enumerate(d.families):
+            if fam["main"][1] != "Some":
+                continue
+            acc = []
+            _all_paths(fam["main"][3][0], acc)
+            for h, _ in fam["helpers"]:
+                # projections in helper impls' trait arguments (wildcards); the user's own bounds in them are the user's text
+                tp = h[3][4]
+                _all_paths(tp, acc)
+            seen = 0
+            for where, pth in acc:
+                if pth[3][1][3][-1][3][0] != base:
+                    continue
+                seen += 1
+                got = _strip_bindings(pth)
+                rep.count("emission:" + where)
+                if got != want:
+                    rep.oracle_failures.append({"clause": "the bound emitted in the generated " + where + " is not the user's bound with exactly the bindings removed",
+                                                "user_bound": tr, "first_difference": list(tref.first_diff(want, got) or [])[-5:],
+                                                "invocation": inv, "main_impl": fam["main_toks"][:800]})
+                    break
+            if not seen:
+                rep.oracle_failures.append({"clause": "the main impl carries no bound of the dispatch trait", "user_bound": tr, "invocation": inv,
+                                            "main_impl": fam["main_toks"][:800]})
+
+
 def run(tier, seed, replay=None):
     rep = C.Report(PROP, tier, seed)
     rep.rule = ("all ordered pairs of a pool of trait paths (variants of a few bases: leading segments, optional leading `::`, "
@@ -81,6 +187,7 @@ def run(tier, seed, replay=None):
         rep.broken.append(str(e)[:2000])
         return rep.finish()
     rng = random.Random(seed * 7919 + 12)
+    emission_stage(rep, exe, random.Random(seed * 7919 + 1212), 60 if tier == "quick" else 1500)
     nbases, nvar = (8, 6) if tier == "quick" else (40, 8)
     pool = []
     corpus = os.path.join(C.VERIF, "corpus", PROP, "paths.json")
@@ -176,7 +283,7 @@ def run(tier, seed, replay=None):
     # de-duplicate oracle failures by clause + first path (one replay per distinct failing path is enough)
     seen, uniq = set(), []
     for f in rep.oracle_failures:
-        key = (f["clause"], f["case"][0])
+        key = (f["clause"], (f.get("case") or [f.get("user_bound")])[0])
         if key not in seen:
             seen.add(key)
             uniq.append(f)
